@@ -38,6 +38,9 @@ func verifNewWorld20() *verifWorld20 {
 	w.chC = datatransfer.ChannelID{Initiator: w.self, Responder: w.other, ID: 3}
 	w.verifTrack(w.chA, rA, false)
 	w.verifTrack(w.chB, rB, true)
+	// like the manager, the events handler applies the channel's transport options from inside
+	// OnRequestReceived (impl/receiving_requests.go: transportOptions.ApplyOptions)
+	w.ev.OnReq = func(chid datatransfer.ChannelID) { w.t.MaxLinks(chid, 7) }
 	return w
 }
 
@@ -48,64 +51,87 @@ func (w *verifWorld20) op(k int, label string) {
 	p := w.other
 	switch k {
 	case 0:
+		zz.Note("op OpenChannel(chC)")
 		req := verifArbitraryRequest(label + ".open")
 		req.TransferId = 3
 		_ = w.t.OpenChannel(ctx, p, w.chC, verifLink(label+".root"), zz.Node(label+".sel"), nil, req)
+		zz.Reach("opened")
 	case 1:
+		zz.Note("op PauseChannel")
 		_ = w.t.PauseChannel(ctx, zz.Ite(zz.Bool(label+".onB"), w.chB, w.chA))
 	case 2:
+		zz.Note("op ResumeChannel")
 		var msg datatransfer.Message
 		if zz.Bool(label + ".withMsg") {
 			msg = verifArbitraryResponse(label + ".msg")
 		}
 		_ = w.t.ResumeChannel(ctx, msg, zz.Ite(zz.Bool(label+".onB"), w.chB, w.chA))
 	case 3:
+		zz.Note("op CloseChannel")
 		_ = w.t.CloseChannel(ctx, zz.Ite(zz.Bool(label+".onB"), w.chB, w.chA))
 	case 4:
-		w.t.CleanupChannel(zz.Ite(zz.Bool(label+".onB"), w.chB, w.chA))
+		which := zz.Choice(label+".which", 3)
+		zz.Note([]string{"op CleanupChannel(chA)", "op CleanupChannel(chB)", "op CleanupChannel(chC)"}[which])
+		w.t.CleanupChannel([]datatransfer.ChannelID{w.chA, w.chB, w.chC}[which])
 	case 5:
+		zz.Note("op UseStore(chA)")
 		_ = w.t.UseStore(w.chA, ipld.LinkSystem{})
 	case 6:
+		zz.Note("op MaxLinks(chA)")
 		w.t.MaxLinks(w.chA, zz.Uint64(label+".max"))
 	case 7:
+		zz.Note("op ChannelsForPeer")
 		_ = w.t.ChannelsForPeer(p)
 	case 8:
+		zz.Note("op UseStore(chB)")
 		// (the outgoing-request hook is only ever run by graphsync from inside Request: see op 0)
 		_ = w.t.UseStore(w.chB, ipld.LinkSystem{})
 	case 9:
+		zz.Note("op gsIncomingBlockHook(rA)")
 		w.t.gsIncomingBlockHook(p, &verifRespData{id: w.rA}, verifArbitraryBlock(), &verifActions{})
 	case 10:
+		zz.Note("op gsBlockSentHook(rB)")
 		w.t.gsBlockSentHook(p, &verifReqData{id: w.rB}, verifArbitraryBlock())
 	case 11:
+		zz.Note("op gsOutgoingBlockHook(rB)")
 		w.t.gsOutgoingBlockHook(p, &verifReqData{id: w.rB}, verifArbitraryBlock(), &verifActions{})
 	case 12:
+		zz.Note("op gsReqRecdHook(restart of chB)")
 		// the remote restarts its pull: a new graphsync request for channel B
 		req := verifArbitraryRequest(label + ".ireq")
 		req.TransferId = 2
 		w.t.gsReqRecdHook(p, verifReqWith(w.rC, req), &verifActions{})
 	case 13:
+		zz.Note("op gsCompletedResponseListener(rB)")
 		w.t.gsCompletedResponseListener(p, verifReq(w.rB), graphsync.ResponseStatusCode(zz.Uint32(label+".status")))
 	case 14:
+		zz.Note("op gsRequestUpdatedHook(rB)")
 		upd := verifReq(w.rB)
 		req := verifArbitraryRequest(label + ".ureq")
 		req.TransferId = 2
 		upd.exts[extension.ExtensionDataTransfer1_1] = verifReqToIPLD(req)
 		w.t.gsRequestUpdatedHook(p, verifReq(w.rB), upd, &verifActions{})
 	case 15:
+		zz.Note("op gsIncomingResponseHook(rA)")
 		resp := &verifRespData{id: w.rA, exts: map[graphsync.ExtensionName]ipld.Node{}}
 		r := verifArbitraryResponse(label + ".resp")
 		r.TransferId = 1
 		resp.exts[extension.ExtensionDataTransfer1_1] = verifRespToIPLD(r)
 		w.t.gsIncomingResponseHook(p, resp, &verifActions{})
 	case 16:
+		zz.Note("op gsRequestorCancelledListener(rB)")
 		w.t.gsRequestorCancelledListener(p, verifReq(w.rB))
 	case 17:
+		zz.Note("op gsNetworkSendErrorListener(rB)")
 		w.t.gsNetworkSendErrorListener(p, verifReq(w.rB), zz.Error(label+".gserr"))
 	case 18:
+		zz.Note("op gsNetworkReceiveErrorListener")
 		w.t.gsNetworkReceiveErrorListener(p, zz.Error(label+".gserr"))
 	case 19:
+		zz.Note("op gsRequestProcessingListener(rB)")
 		w.t.gsRequestProcessingListener(p, verifReq(w.rB), zz.Int(label+".n"))
 	case 20:
+		zz.Note("op Shutdown")
 		_ = w.t.Shutdown(ctx)
 	}
 }
@@ -133,20 +159,20 @@ func verifConcurrent20(handlerFails bool) {
 // VerifC20_TransportConcurrent: two concurrent operations out of the transport API and the
 // graphsync callback surface; the events handler accepts everything.
 //
-//verif:opts race preempt=sync sched=3 part0=8 part1=2 novalidate
+//verif:opts race preempt=sync pb=1 sched=3 part0=8 part1=2 novalidate
 func VerifC20_TransportConcurrent() { verifConcurrent20(false) }
 
 // VerifC20_TransportConcurrentHandlerOutcomes: the same with the events handler answering
 // nil / ErrPause / another error.
 //
 //verif:tier thorough
-//verif:opts race preempt=sync sched=3 part0=3 part1=8 novalidate
+//verif:opts race preempt=sync pb=1 sched=3 part0=3 part1=8 novalidate
 func VerifC20_TransportConcurrentHandlerOutcomes() { verifConcurrent20(true) }
 
 // VerifC20_TransportSingleCallReturns: every single call (whatever the handler answers)
 // returns; in particular a callback invoked by graphsync from inside Request does.
 //
-//verif:opts race preempt=sync sched=2 novalidate
+//verif:opts race preempt=sync pb=1 sched=2 novalidate
 func VerifC20_TransportSingleCallReturns() {
 	w := verifNewWorld20()
 	verifOutcome(w.ev, "outcome")
